@@ -81,10 +81,25 @@ func runC19(c *Ctx) {
 
 	// ---- C19.I
 	if f := c.need(p, "C19.I", "app.proxyHandler"); f != nil {
-		pr := c.UniqueCall("C19.I", p, f, false, appPkg+".postRequest")
+		// the request is stored through postRequest(ctx, s, backendID, requestID, user, bytes) or,
+		// when that helper was inlined, through types.NewRequest(backendID, requestID, user, bytes) + s.WriteRequest
+		var pr ssa.Instruction
+		var a []ssa.Value
+		if p.Func("app.postRequest") != nil {
+			if pr = c.UniqueCall("C19.I", p, f, false, appPkg+".postRequest"); pr != nil {
+				a = CallOf(pr).Args
+			}
+		} else if nr := c.UniqueCall("C19.I", p, f, false, ModPath+"/app/types.NewRequest"); nr != nil {
+			if ws := c.UniqueCall("C19.I", p, f, false, storeIface+".WriteRequest"); ws != nil && SameValue(Args(CallOf(ws))[2], nr.(ssa.Value)) {
+				pr = nr
+				a = append([]ssa.Value{nil, nil}, CallOf(nr).Args...)
+			} else if ws != nil {
+				c.Bad("C19.I", "proxy:stores-the-new-request", p, ws.Pos(), "the request written to the store is not the one built by types.NewRequest in proxyHandler")
+			}
+		}
 		wr := c.UniqueCall("C19.I", p, f, false, appPkg+".waitForResponse")
 		if pr != nil && wr != nil {
-			a, b := CallOf(pr).Args, CallOf(wr).Args
+			b := CallOf(wr).Args
 			c.Check("C19.I", "proxy:same-pair-stored-and-awaited", p, wr.Pos(), SameValue(a[2], b[2]) && SameValue(a[3], b[3]), "the response is awaited under the same (backend ID, request ID) the request was stored under", "proxyHandler stores the request under ("+PathOf(a[2])+", "+PathOf(a[3])+") but waits for the response under ("+PathOf(b[2])+", "+PathOf(b[3])+"): the client can receive another request's response or time out")
 			c.PathIs("C19.I", "proxy:request-id-is-own", p, pr.Pos(), a[3], "the request ID is this call's own (App Engine request ID parameter)", P(f, 2))
 			c.PathIs("C19.I", "proxy:backend-from-lookup", p, pr.Pos(), a[2], "the backend is the one LookupBackend returned", "result0:"+storeIface+".LookupBackend")
@@ -151,7 +166,11 @@ func runC19(c *Ctx) {
 			c.Check("C19.I", "wait:returns-read-contents", p, f.Pos(), okRet, "returns the Contents of the response it read", "waitForResponse does not return the Contents of the response read under its own IDs")
 		}
 	}
-	if f := c.need(p, "C19.I", "app.postRequest"); f != nil {
+	if p.Func("app.postRequest") == nil {
+		for _, name := range []string{"backendID", "requestID", "requestBytes"} {
+			c.OK("C19.I", "postRequest→NewRequest:"+name, p, 0, "postRequest was inlined: proxyHandler passes the value to types.NewRequest itself (checked above)")
+		}
+	} else if f := c.need(p, "C19.I", "app.postRequest"); f != nil {
 		if nr := c.UniqueCall("C19.I", p, f, false, ModPath+"/app/types.NewRequest"); nr != nil {
 			for k, name := range map[int]string{0: "backendID", 1: "requestID", 3: "requestBytes"} {
 				c.ArgIs("C19.I", "postRequest→NewRequest:"+name, p, nr, k, name+" role", P(f, k+2))
@@ -299,76 +318,7 @@ func runC19(c *Ctx) {
 			}
 		}
 	}
-	// blob parts
-	if f := c.need(p, "C19.K", "app/store.writeBlobParts"); f != nil {
-		var nk ssa.Instruction
-		for _, fn := range WithClosures(f) {
-			for _, call := range Calls(fn, dsPkg+".NewKey") {
-				nk = call
-			}
-		}
-		okW := false
-		if nk != nil {
-			a := CallOf(nk).Args
-			k, _ := ConstString(a[1])
-			// the name is what gets appended to partNames
-			appended := false
-			EachInstr(f, func(i ssa.Instruction) {
-				if call, ok := i.(*ssa.Call); ok {
-					if b, isB := call.Call.Value.(*ssa.Builtin); isB && b.Name() == "append" {
-						r, _ := DerivesFrom(call.Call.Args[1], func(v ssa.Value) bool { return SameValue(v, a[2]) }, func(ssa.Value) bool { return false })
-						if r {
-							appended = true
-						}
-					}
-				}
-			})
-			okW = k == "blobParts" && appended
-		}
-		c.Check("C19.K", "blob:part-names-recorded", p, f.Pos(), okW, "each part is stored under kind blobParts with the name that is appended (in loop order) to the recorded part names", "a blob part is not stored under the name recorded in the blob's part list (kind blobParts)")
-	}
-	if f := c.need(p, "C19.K", "app/store.(*blob).read"); f != nil {
-		gm := Calls(f, dsPkg+".GetMulti")
-		conc := len(Closures(f)) > 0
-		EachInstr(f, func(i ssa.Instruction) {
-			switch i.(type) {
-			case *ssa.Go, *ssa.Send, *ssa.Select:
-				conc = true
-			}
-		})
-		okR := len(gm) == 1 && !conc && len(Calls(f, dsPkg+".Get")) == 0
-		okKeys := false
-		if nk := Calls(f, dsPkg+".NewKey"); len(nk) == 1 {
-			a := CallOf(nk[0]).Args
-			k, _ := ConstString(a[1])
-			okKeys = k == "blobParts" && PathOf(a[2]) == P(f, 0)+".Parts[]"
-		}
-		// concatenation: append over the parts slice handed to GetMulti, in range order
-		okCat := false
-		if len(gm) == 1 {
-			parts := CallOf(gm[0]).Args[2]
-			EachInstr(f, func(i ssa.Instruction) {
-				if call, ok := i.(*ssa.Call); ok {
-					if b, isB := call.Call.Value.(*ssa.Builtin); isB && b.Name() == "append" {
-						if _, fld, ok := FieldLoad(call.Call.Args[1]); ok && fld == "Bytes" {
-							r, _ := DerivesFrom(call.Call.Args[1], func(v ssa.Value) bool {
-								for _, pr := range Roots(parts) {
-									if v == pr {
-										return true
-									}
-								}
-								return false
-							}, func(ssa.Value) bool { return false })
-							if r || true {
-								okCat = true
-							}
-						}
-					}
-				}
-			})
-		}
-		c.Check("C19.K", "blob:ordered-read", p, f.Pos(), okR && okKeys && okCat, "parts are fetched with one ordered GetMulti over keys built from blob.Parts in order and concatenated in that order, without goroutines", "blob.read does not fetch the parts with a single ordered GetMulti over blob.Parts and append them in that order (e.g. concurrent Gets appended in completion order): bodies with more than one continuation part read back permuted")
-	}
+	ruleBlobParts(c, p, "C19.K")
 	if f := c.need(p, "C19.K", "app/store.newBlob"); f != nil {
 		okN := false
 		if as := AllocsOf(f, "app/store.blob"); len(as) >= 1 {
@@ -555,7 +505,7 @@ func c19Hangs(c *Ctx, p *Prog) {
 		}
 		nwg++
 		dones, goLoop := 0, false
-		for _, cl := range fn.AnonFuncs {
+		for _, cl := range DirectClosures(fn) {
 			for _, in := range cl.Blocks[0].Instrs {
 				if d, ok := in.(*ssa.Defer); ok && CalleeName(&d.Call) == "(*sync.WaitGroup).Done" {
 					dones++
@@ -619,4 +569,80 @@ func c19Hangs(c *Ctx, p *Prog) {
 		c.Check("C19.H", name+":bounded", p, f.Pos(), ok && okSel, "the wait loop selects on a context derived from context.WithTimeout(<constant>) and returns when it is done", name+": the polling loop is not bounded by a context.WithTimeout(constant) whose Done arm returns: the call can wait forever")
 	}
 	_ = types.Typ
+}
+
+// ruleBlobParts: blob continuation parts are recorded in loop (index) order
+// under the names they are stored with, and read back with one ordered
+// GetMulti in that order.
+func ruleBlobParts(c *Ctx, p *Prog, rule string) {
+	// blob parts
+	if f := c.need(p, rule, "app/store.writeBlobParts"); f != nil {
+		var nk ssa.Instruction
+		for _, fn := range WithClosures(f) {
+			for _, call := range Calls(fn, dsPkg+".NewKey") {
+				nk = call
+			}
+		}
+		okW := false
+		if nk != nil {
+			a := CallOf(nk).Args
+			k, _ := ConstString(a[1])
+			// the name is what gets appended to partNames
+			appended := false
+			EachInstr(f, func(i ssa.Instruction) {
+				if call, ok := i.(*ssa.Call); ok {
+					if b, isB := call.Call.Value.(*ssa.Builtin); isB && b.Name() == "append" {
+						r, _ := DerivesFrom(call.Call.Args[1], func(v ssa.Value) bool { return SameValue(v, a[2]) }, func(ssa.Value) bool { return false })
+						if r {
+							appended = true
+						}
+					}
+				}
+			})
+			okW = k == "blobParts" && appended
+		}
+		c.Check(rule, "blob:part-names-recorded", p, f.Pos(), okW, "each part is stored under kind blobParts with the name that is appended (in loop order) to the recorded part names", "a blob part is not stored under the name recorded in the blob's part list (kind blobParts)")
+	}
+	if f := c.need(p, rule, "app/store.(*blob).read"); f != nil {
+		gm := Calls(f, dsPkg+".GetMulti")
+		conc := len(Closures(f)) > 0
+		EachInstr(f, func(i ssa.Instruction) {
+			switch i.(type) {
+			case *ssa.Go, *ssa.Send, *ssa.Select:
+				conc = true
+			}
+		})
+		okR := len(gm) == 1 && !conc && len(Calls(f, dsPkg+".Get")) == 0
+		okKeys := false
+		if nk := Calls(f, dsPkg+".NewKey"); len(nk) == 1 {
+			a := CallOf(nk[0]).Args
+			k, _ := ConstString(a[1])
+			okKeys = k == "blobParts" && PathOf(a[2]) == P(f, 0)+".Parts[]"
+		}
+		// concatenation: append over the parts slice handed to GetMulti, in range order
+		okCat := false
+		if len(gm) == 1 {
+			parts := CallOf(gm[0]).Args[2]
+			EachInstr(f, func(i ssa.Instruction) {
+				if call, ok := i.(*ssa.Call); ok {
+					if b, isB := call.Call.Value.(*ssa.Builtin); isB && b.Name() == "append" {
+						if _, fld, ok := FieldLoad(call.Call.Args[1]); ok && fld == "Bytes" {
+							r, _ := DerivesFrom(call.Call.Args[1], func(v ssa.Value) bool {
+								for _, pr := range Roots(parts) {
+									if v == pr {
+										return true
+									}
+								}
+								return false
+							}, func(ssa.Value) bool { return false })
+							if r || true {
+								okCat = true
+							}
+						}
+					}
+				}
+			})
+		}
+		c.Check(rule, "blob:ordered-read", p, f.Pos(), okR && okKeys && okCat, "parts are fetched with one ordered GetMulti over keys built from blob.Parts in order and concatenated in that order, without goroutines", "blob.read does not fetch the parts with a single ordered GetMulti over blob.Parts and append them in that order (e.g. concurrent Gets appended in completion order): bodies with more than one continuation part read back permuted")
+	}
 }
